@@ -14,13 +14,24 @@ Transcribes (src/twisted/logger/_observer.py):
                       is called with a new failure event: `publishErr` on the filtered list.
 
 Observers are user code, hence data: observer `o` called for the `n`-th time with event `e`
-performs `beh o n e : Act` — it records the event, then calls `removeObserver` / `addObserver`
-on the publisher under test for the listed observers, then raises or returns.
+performs `beh o n e : Act` — it records the event, then runs a list of commands against the
+publisher under test, in order: `removeObserver(x)`, `addObserver(x)`, or **`publisher(newEvent)`** —
+a re-entrant publish of a fresh event through the very publisher that is calling it — and then
+raises or returns.  Observers called by an error publisher run the same commands (they hold a
+reference to the publisher under test, not to the private error publishers).
+
+Re-entrant publishing makes `__call__` recursive through user code.  The model ties that knot with
+a parameter: every function takes `pub : Reenter`, "what `publisher(event)` does when an observer
+calls it"; `nested beh n` instantiates it with `publishWith` itself, `n` levels deep (level 0: the
+call is not performed and `overflow` is set — the driver gives more fuel than the scripts can use
+and reports `overflow`; all theorems hold for every fuel).
 Error publishers are fresh objects nobody else holds a reference to: their observer list is
 immutable, which is why `publishErr` takes the list as an argument while `publishMain` reads it
 from the state.
 
-Events: `app k` is the k-th event handed to the publisher by the application; `report b c` is
+Events: `app k` is the k-th event handed to the publisher by the application; `sub k` is the k-th
+event published by an observer while it was being called (numbered by the counter `St.next`, so
+every re-entrant publish carries a new event); `report b c` is
 the failure event ("Temporarily disabling observer …") created because observer `b` raised
 while handling event `c`.
 -/
@@ -30,12 +41,20 @@ abbrev Obs := Nat
 
 inductive Ev where
   | app (k : Nat)
+  | sub (k : Nat)
   | report (b : Obs) (cause : Ev)
   deriving DecidableEq, Repr
 
+/-- what an observer may do to the publisher under test while it is being called -/
+inductive Cmd where
+  | remove (o : Obs)
+  | add (o : Obs)
+  /-- `publisher(event)` with a fresh event: a re-entrant publish -/
+  | publish
+  deriving DecidableEq, Repr
+
 structure Act where
-  removes : List Obs := []
-  adds : List Obs := []
+  cmds : List Cmd := []
   raises : Bool := false
   deriving DecidableEq, Repr
 
@@ -53,23 +72,36 @@ structure St where
   main : List Obs
   /-- every delivery (observer, event) so far, oldest first -/
   trace : List (Obs × Ev)
+  /-- number of events published by observers so far (names the next one) -/
+  next : Nat := 0
+  /-- a re-entrant publish was cut off because the nesting bound was used up -/
+  overflow : Bool := false
   deriving DecidableEq, Repr
 
 /-- how often observer `o` has been called -/
 def calls (o : Obs) (tr : List (Obs × Ev)) : Nat := tr.countP (fun d => d.1 == o)
 
-/-- `try: observer(event) except Exception: …` — returns whether it raised -/
-def callObs (beh : Beh) (o : Obs) (e : Ev) (s : St) : St × Bool :=
+/-- what `publisher(event)` does when called by an observer (see the header) -/
+abbrev Reenter := Ev → St → St
+
+/-- one command of an observer against the publisher under test -/
+def runCmd (pub : Reenter) (s : St) : Cmd → St
+  | .remove o => { s with main := removeObs s.main o }
+  | .add o => { s with main := addObs s.main o }
+  | .publish => pub (.sub s.next) { s with next := s.next + 1 }
+
+/-- `try: observer(event) except Exception: …` — returns whether it raised.  The observer records
+    the event first, then runs its commands in order. -/
+def callObs (pub : Reenter) (beh : Beh) (o : Obs) (e : Ev) (s : St) : St × Bool :=
   let a := beh o (calls o s.trace) e
-  ({ main := a.adds.foldl addObs (a.removes.foldl removeObs s.main),
-     trace := s.trace ++ [(o, e)] }, a.raises)
+  (a.cmds.foldl (runCmd pub) { s with trace := s.trace ++ [(o, e)] }, a.raises)
 
 /-- first loop over a snapshot of the observers; returns the broken observers in order -/
-def deliverAll (beh : Beh) (e : Ev) : List Obs → St → St × List Obs
+def deliverAll (pub : Reenter) (beh : Beh) (e : Ev) : List Obs → St → St × List Obs
   | [], s => (s, [])
   | o :: os, s =>
-    let r := callObs beh o e s
-    let r2 := deliverAll beh e os r.1
+    let r := callObs pub beh o e s
+    let r2 := deliverAll pub beh e os r.1
     (r2.1, if r.2 then o :: r2.2 else r2.2)
 
 /-- `LogPublisher.__call__` of an error publisher with the (immutable) observers `obs`.
@@ -77,41 +109,51 @@ def deliverAll (beh : Beh) (e : Ev) : List Obs → St → St × List Obs
     is at most `obs.length`; `n` is that bound (structural recursion).  With `obs.length ≤ n`
     the `0` case is reached only with `obs = []`, where the real code does nothing as well
     (`TwistedProps.C57.publishErrN_fuel_irrelevant`: any `n ≥ obs.length` gives the same result). -/
-def publishErrN (beh : Beh) : Nat → List Obs → Ev → St → St
+def publishErrN (pub : Reenter) (beh : Beh) : Nat → List Obs → Ev → St → St
   | 0, _, _, s => s
   | n + 1, obs, e, s =>
-    let r := deliverAll beh e obs s
-    r.2.foldl (fun s b => publishErrN beh n (obs.filter (· != b)) (.report b e) s) r.1
+    let r := deliverAll pub beh e obs s
+    r.2.foldl (fun s b => publishErrN pub beh n (obs.filter (· != b)) (.report b e) s) r.1
 
-def publishErr (beh : Beh) (obs : List Obs) (e : Ev) (s : St) : St :=
-  publishErrN beh obs.length obs e s
+def publishErr (pub : Reenter) (beh : Beh) (obs : List Obs) (e : Ev) (s : St) : St :=
+  publishErrN pub beh obs.length obs e s
 
 /-- second loop of the publisher under test: `_errorLoggerForObserver` reads `self._observers`
     when each failure is reported -/
-def reportMain (beh : Beh) (e : Ev) (broken : List Obs) (s : St) : St :=
-  broken.foldl (fun s b => publishErr beh (s.main.filter (· != b)) (.report b e) s) s
+def reportMain (pub : Reenter) (beh : Beh) (e : Ev) (broken : List Obs) (s : St) : St :=
+  broken.foldl (fun s b => publishErr pub beh (s.main.filter (· != b)) (.report b e) s) s
 
-/-- `LogPublisher.__call__` of the publisher under test (repaired code: iterates a copy) -/
-def publishMain (beh : Beh) (e : Ev) (s : St) : St :=
-  let r := deliverAll beh e s.main s
-  reportMain beh e r.2 r.1
+/-- `LogPublisher.__call__` of the publisher under test (repaired code: iterates a copy), with
+    `pub` for the calls observers make to it meanwhile -/
+def publishWith (pub : Reenter) (beh : Beh) (e : Ev) (s : St) : St :=
+  let r := deliverAll pub beh e s.main s
+  reportMain pub beh e r.2 r.1
+
+/-- `publisher(event)` as called by an observer, at most `n` levels of re-entrancy below it -/
+def nested (beh : Beh) : Nat → Reenter
+  | 0 => fun _ s => { s with overflow := true }
+  | n + 1 => publishWith (nested beh n) beh
+
+/-- `LogPublisher.__call__` of the publisher under test, re-entrant calls up to depth `fuel` -/
+def publishMain (beh : Beh) (fuel : Nat) (e : Ev) (s : St) : St :=
+  publishWith (nested beh fuel) beh e s
 
 /-- the first loop as it was before the repair: `for observer in self._observers` is an index
     walk over the live list (`fuel` bounds the walk; the driver passes more than enough) -/
-def deliverLive (beh : Beh) (e : Ev) : Nat → Nat → St → St × List Obs
+def deliverLive (pub : Reenter) (beh : Beh) (e : Ev) : Nat → Nat → St → St × List Obs
   | 0, _, s => (s, [])
   | fuel + 1, i, s =>
     match s.main[i]? with
     | none => (s, [])
     | some o =>
-      let r := callObs beh o e s
-      let r2 := deliverLive beh e fuel (i + 1) r.1
+      let r := callObs pub beh o e s
+      let r2 := deliverLive pub beh e fuel (i + 1) r.1
       (r2.1, if r.2 then o :: r2.2 else r2.2)
 
-/-- `LogPublisher.__call__` before the repair -/
+/-- `LogPublisher.__call__` before the repair (re-entrant publishes: the repaired code) -/
 def publishMainLive (beh : Beh) (fuel : Nat) (e : Ev) (s : St) : St :=
-  let r := deliverLive beh e fuel 0 s
-  reportMain beh e r.2 r.1
+  let r := deliverLive (nested beh fuel) beh e fuel 0 s
+  reportMain (nested beh fuel) beh e r.2 r.1
 
 /-- operations of the application on the publisher under test -/
 inductive Op where
@@ -120,11 +162,11 @@ inductive Op where
   | emit (k : Nat)
   deriving DecidableEq, Repr
 
-def step (beh : Beh) (s : St) : Op → St
+def step (beh : Beh) (fuel : Nat) (s : St) : Op → St
   | .add o => { s with main := addObs s.main o }
   | .remove o => { s with main := removeObs s.main o }
-  | .emit k => publishMain beh (.app k) s
+  | .emit k => publishMain beh fuel (.app k) s
 
-def run (beh : Beh) (ops : List Op) (s : St) : St := ops.foldl (step beh) s
+def run (beh : Beh) (fuel : Nat) (ops : List Op) (s : St) : St := ops.foldl (step beh fuel) s
 
 end Twisted.Log.Publish
